@@ -87,7 +87,7 @@ def Ktensor.nvecsGram [Add α] [Mul α] [Zero α] (K : Ktensor α) (n : Nat) : E
 `Y[i] = Σ_l (∏_k V_k[i_k, l_k]) · T[l]` — the logical content of the loop "for every mode: permute,
 F-reshape, `matrix @ ·`, F-reshape, permute back" (that `tensor.ttm` computes this is property C02;
 here it is a primitive, like `@`).  The shape tests of the matrix products are kept. -/
-def Dense.ttmList [Add α] [Mul α] [Zero α] [One α] (T : Dense α) (Vs : List (Mat α)) : Except Reject (Dense α) :=
+def Dense.ttmListNv [Add α] [Mul α] [Zero α] [One α] (T : Dense α) (Vs : List (Mat α)) : Except Reject (Dense α) :=
   if Vs.length != T.shape.length then .error .reject
   else if (List.range Vs.length).any
       (fun k => (Vs.getD k []).any fun row => row.length != T.shape.getD k 0) then .error .reject
@@ -109,7 +109,7 @@ def Ttensor.nvecsGram [Add α] [Mul α] [Zero α] [One α] (T : Ttensor α) (n :
   let N := T.factors.length
   if n ≥ N then .error .reject
   else
-    match T.core.ttmList (T.nvecsVs n) with
+    match T.core.ttmListNv (T.nvecsVs n) with
     | .error e => .error e
     | .ok H =>
       match H.toTenmat none (some [n]) none, T.core.toTenmat none (some [n]) none with
